@@ -219,8 +219,13 @@ def System.setDefaultChem (s : System) : Res System :=
   | .error e => .error e
   | .ok c => .ok { s with chem := c }
 
+/-- the `space` setter of `RDSystem`: every cell environment index must pass the generated test -/
+def spaceAccepted (net : Network) (space : Space) : Bool :=
+  space.envArray.all fun e => !spaceEnvBad net.envs.length e
+
 /-- `RDSystem(network, space, units_system=…)` with `state=None`, `chemostats=None` -/
 def mkSystem (net : Network) (space : Space) (sysUnits : Sys) : Res System :=
+  if !spaceAccepted net space then .error .badValue else
   match systemState net space (defaultStateSys net sysUnits) with
   | .error e => .error e
   | .ok st =>
